@@ -1,4 +1,4 @@
-\* quick: the cache with every named deviation repaired is transparent (exhaustive, bounded)
+\* quick: the cache with every named deviation repaired is transparent (exhaustive): 3 keys, capacity 2, 3 blocks, no restarts
 CONSTANTS NK = 3  Cap = 2  MaxH = 3  Restarts = FALSE  RecordHist = FALSE  SimDepth = 0
 CONSTANT Vals <- V1
 CONSTANT Dev <- DevNone
